@@ -748,7 +748,7 @@ func init() {
 			runCase(trieGen, 0, true)
 		}
 		// larger regular sets, so that the model sees the larger ShortSize values
-		for _, n := range []int{6000, 12000} {
+		for _, n := range c17RegularNs(c.Thorough()) {
 			for _, sh := range shapes {
 				if strings.HasPrefix(sh.name, "shortsize") || sh.name == "distinct17" {
 					runCase(sh, n, true)
@@ -788,6 +788,13 @@ func init() {
 		c.Or.Extra["max_prefix_delta_observed"] = maxDelta
 		c.Or.Extra["max_prefix_delta_where"] = maxDeltaWhere
 	})
+}
+
+func c17RegularNs(thorough bool) []int {
+	if thorough {
+		return []int{6000, 12000}
+	}
+	return []int{5000}
 }
 
 func c17BigNs(thorough bool, bigN int) []int {
